@@ -266,7 +266,7 @@ def val_eq(P, a, b):
         return b_all(val_eq(P, x, y) for x, y in zip(a.f, b.f))
     if isinstance(a, En) and isinstance(b, En):
         if a.var is None or b.var is None:
-            return binop('Eq', P.M.discr_of(a), P.M.discr_of(b))
+            return binop('Eq', int_cast(P.M.discr_of(a), 64, True), int_cast(P.M.discr_of(b), 64, True))
         if a.var != b.var:
             return FALSE
         return b_all(val_eq(P, x, y) for x, y in zip(a.f, b.f))
